@@ -38,6 +38,21 @@ func r06_1(c *Ctx, r *Report) {
 			continue
 		}
 		li := loops[0]
+		// a view that iterates the result of its own GetMonthsInYear() sees only months of its year
+		prefiltered := false
+		for _, ins := range li.header.Instrs {
+			phi, ok := ins.(*ssa.Phi)
+			if !ok {
+				break
+			}
+			for _, e := range phi.Edges {
+				if front, ok := e.(*ssa.Call); ok && front.Common().StaticCallee() != nil && front.Common().StaticCallee().Name() == "Front" {
+					if src, ok := front.Common().Args[0].(*ssa.Call); ok && src.Common().StaticCallee() != nil && fname(src.Common().StaticCallee()) == "calendar.(*LunarYear).GetMonthsInYear" && src.Common().Args[0] == ssa.Value(fn.Params[0]) && name != "GetMonthsInYear" {
+						prefiltered = true
+					}
+				}
+			}
+		}
 		var entry *ssa.BasicBlock
 		for _, sc := range li.header.Succs {
 			if li.body[sc] {
@@ -114,6 +129,9 @@ func r06_1(c *Ctx, r *Report) {
 						problems = append(problems, "the loop body could not be followed: "+outcome+" "+ev.fail)
 						continue
 					}
+					if prefiltered && !sameYear {
+						continue // such a month is not in the list this view iterates (R06.1 on GetMonthsInYear)
+					}
 					want := sameYear
 					switch name {
 					case "GetMonth":
@@ -128,7 +146,7 @@ func r06_1(c *Ctx, r *Report) {
 			}
 		}
 		sort.Strings(problems)
-		r.check(len(problems) == 0 && n == 8, rule, construct, c.fnPos(fn), fmt.Sprintf("%d abstract months followed through the loop body; deviations: %v", n, headList(dedupe(problems), 3)))
+		r.check(len(problems) == 0 && n == 8, rule, construct+map[bool]string{true: " (through its own GetMonthsInYear)", false: ""}[prefiltered], c.fnPos(fn), fmt.Sprintf("%d abstract months followed through the loop body; deviations: %v", n, headList(dedupe(problems), 3)))
 	}
 }
 
@@ -141,27 +159,44 @@ func r06_2(c *Ctx, r *Report) {
 	}
 	// when the walk crosses into the neighbouring year's table, the search key (iy, im) is the boundary month's own (year, month)
 	keyOK := map[string]string{}
+	// the search keys: the loop-carried values the months of the table are compared with,
+	// `m.GetYear() == <key> && m.GetMonth() == <key>` (found by that use, not by their names)
+	keyPhis := map[*ssa.Phi]string{}
 	for _, b := range fn.Blocks {
 		for _, ins := range b.Instrs {
-			phi, ok := ins.(*ssa.Phi)
-			if !ok || (phi.Comment != "iy" && phi.Comment != "im") {
+			bo, ok := ins.(*ssa.BinOp)
+			if !ok || bo.Op != token.EQL {
 				continue
 			}
-			loops, of := findLoops(fn)
-			_ = loops
-			for i, e := range phi.Edges {
-				pred := phi.Block().Preds[i]
-				inLoop := false
-				for _, li := range of[phi.Block()] {
-					if li.body[pred] && li.header == phi.Block() {
-						inLoop = true
-					}
-				}
-				if !inLoop {
+			for _, pr := range [][2]ssa.Value{{bo.X, bo.Y}, {bo.Y, bo.X}} {
+				_, f, okg := getterField(c, pr[0])
+				phi, isPhi := pr[1].(*ssa.Phi)
+				if !okg || !isPhi {
 					continue
 				}
-				keyOK[fmt.Sprintf("%s@%d", phi.Comment, phi.Block().Index)] = boundaryKey(e)
+				switch f {
+				case "LunarMonth.year":
+					keyPhis[phi] = "iy"
+				case "LunarMonth.month":
+					keyPhis[phi] = "im"
+				}
 			}
+		}
+	}
+	_, of := findLoops(fn)
+	for phi, role := range keyPhis {
+		for i, e := range phi.Edges {
+			pred := phi.Block().Preds[i]
+			inLoop := false
+			for _, li := range of[phi.Block()] {
+				if li.body[pred] && li.header == phi.Block() {
+					inLoop = true
+				}
+			}
+			if !inLoop {
+				continue
+			}
+			keyOK[fmt.Sprintf("%s@%d", role, phi.Block().Index)] = boundaryKey(e)
 		}
 	}
 	var bad []string
